@@ -63,7 +63,7 @@ def snap_command(input_workload, output_file, ticks_per_second, force=False):
                 # a time already on a tick boundary must stay there even when the
                 # float product lands just below the tick number (0.57 * 100)
                 ticks = original * ticks_per_second
-                snapped = math.floor(ticks + 1e-9 * max(1.0, abs(ticks))) / ticks_per_second
+                snapped = math.floor(ticks + 16 * math.ulp(ticks)) / ticks_per_second
                 row['arrival_seconds'] = snapped
 
             writer.writerow(row)
